@@ -324,6 +324,9 @@ func (s *Sched) enabledThreads() []*Thread {
 			en = append(en, t)
 		}
 	}
+	// canonical order must not depend on the order in which goroutines registered
+	// (two timers firing in the same instant register in runtime order): sort by name
+	sort.SliceStable(en, func(i, j int) bool { return en[i].Name < en[j].Name })
 	return en
 }
 
